@@ -1,5 +1,5 @@
 (* C05 — "A swap never pays out more value than it takes in, beyond capped impact": theorems only. *)
-From GV Require Import lib.Base C01.Model MK.Market MK.Swap MK.MarketProofs MK.SwapProofs C05.Proofs.
+From GV Require Import lib.Base C01.Model MK.Market MK.Swap MK.MarketProofs MK.SwapProofs C05.Proofs MK.Examples.
 Open Scope Z_scope.
 
 (* [use L]: apply lemma L to the hypothesis stating that the swap succeeded (this fixes w, unit, cfg
@@ -63,3 +63,24 @@ Theorem c05_swap_zero_impact_config : forall w, 1 <= w -> forall unit, 0 < unit 
   ip_positive (c_swap_impact cfg) = 0 -> ip_negative (c_swap_impact cfg) = 0 ->
   swap_exec_trace w unit cfg s il a ps = Ok (s', r, t) -> sr_impact_value r = 0.
 Proof. use swap_zero_impact_config. Qed.
+
+(* ---------- non-vacuity: concrete u64/9 markets ---------- *)
+(* capped positive impact: 5 long tokens from the long impact pool, 7 short tokens from the
+   short impact pool; funded value 5*121 + 7*1 = 612 <= impact value 1600 *)
+Example c05_ex_capped :
+  exists s' r t, swap_exec_trace 64 (10 ^ 9) cfg64 ex_market_small_impact false 10000000000 ex_prices = Ok (s', r, t) /\
+    sr_out r = 82603310 /\ sr_impact_value r = 1600 /\ sr_impact_amount r = 5 /\ st_capped_in t = 7 /\
+    st_after_fees t = 9995000000 /\ funded_impact_value ex_prices false r t = 612.
+Proof. eexists. eexists. eexists. split; [vm_compute; reflexivity|]. repeat split. Qed.
+
+(* negative impact *)
+Example c05_ex_negative :
+  exists s' r t, swap_exec_trace 64 (10 ^ 9) cfg64 ex_market true 1000000 ex_prices = Ok (s', r, t) /\
+    sr_out r = 119915880 /\ sr_impact_value r = -77 /\ sr_impact_amount r = 1 /\ st_after_fees t = 999300.
+Proof. eexists. eexists. eexists. split; [vm_compute; reflexivity|]. repeat split. Qed.
+
+(* zero fees, zero impact factors: plain conversion 1000000 * 120 / 1 *)
+Example c05_ex_zero :
+  exists s' r t, swap_exec_trace 64 (10 ^ 9) cfg64_zero ex_market true 1000000 ex_prices = Ok (s', r, t) /\
+    sr_out r = 120000000 /\ sr_impact_value r = 0.
+Proof. eexists. eexists. eexists. split; [vm_compute; reflexivity|]. repeat split. Qed.
